@@ -197,6 +197,7 @@ package main
 //@ func randomWord() (w)
 //@   nosafety
 //@   maypanic
+//@   call crypto/rand.Read#1 requires len(arg0) == 2                                                                 [C06]
 
 //@ func passphrasePromptForEncryption() (p, err)
 //@   loop 1 invariant true
